@@ -139,6 +139,11 @@ func validOptionalPort(port string) bool {
 // on an allowed domains list.
 func IsEndpointAllowed(endpoint *url.URL, allowedDomains []string) bool {
 	hostname := endpoint.Hostname()
+	if hostname == "" {
+		// a URL without a host (e.g. "https:///example.com") is never on an
+		// allowed domain, even if a degenerate entry such as "." would match ""
+		return false
+	}
 
 	for _, allowedDomain := range allowedDomains {
 		allowedHost, allowedPort := SplitHostPort(allowedDomain)
